@@ -12,12 +12,15 @@ use crate::model::{Errc, Model};
 
 pub const FILES: [&str; 5] = ["/a", "/d/a", "/d/b", "/e/a", "/b"];
 pub const DIRS: [&str; 3] = ["/d", "/e", "/d/s"];
-pub const DATA: [&[u8]; 2] = [b"xy", b"Z"];
+pub const DATA: [&[u8]; 3] = [b"xy", b"Z", b""];
 
 #[derive(Clone, Copy, Debug, PartialEq, Eq, Hash)]
 pub enum Front {
     Std,
     Tokio,
+    /// one entry on a fresh simulated io_uring ring, submitted and reaped at once (no latency
+    /// is configured in these histories)
+    Uring,
 }
 
 #[derive(Clone, Copy, Debug, PartialEq, Eq, Hash)]
@@ -191,6 +194,39 @@ fn block<T>(fut: impl std::future::Future<Output = T>) -> T {
     }
 }
 
+/// result of one io_uring entry on the open file `h`: pushed on a fresh ring, submitted, and
+/// its completion taken right away
+fn uring_one(build: impl FnOnce(turmoil_io_uring::types::Fd) -> turmoil_io_uring::squeue::Entry, h: &sfs::File) -> Result<i32, Res> {
+    use std::os::fd::AsRawFd;
+    use turmoil_io_uring::{host, IoUring};
+    let iou = std::sync::Arc::new(std::sync::Mutex::new(host::IoUringHostState::new()));
+    // the ring compares deadlines (taken from the filesystem clock) with its own clock: far ahead
+    let _g = host::enter(&iou, host::EnterCtx { now: std::time::Duration::from_secs(1 << 40) });
+    let mut ring = IoUring::new(2).map_err(|e| Res::Err(format!("Other(ring: {e})")))?;
+    let entry = build(turmoil_io_uring::types::Fd(h.as_raw_fd())).user_data(7);
+    unsafe {
+        ring.submission().push(&entry).map_err(|_| Res::Err("Other(push failed)".into()))?;
+    }
+    ring.submit().map_err(|e| Res::Err(format!("Other(submit: {e})")))?;
+    let mut cq = ring.completion();
+    cq.sync();
+    match cq.next() {
+        Some(e) if e.user_data() == 7 => Ok(e.result()),
+        Some(e) => Err(Res::Err(format!("Other(foreign CQE {})", e.user_data()))),
+        None => Err(Res::Err("Other(no completion although no latency is configured)".into())),
+    }
+}
+
+fn uring_errno(n: i32) -> Res {
+    Res::Err(match -n {
+        2 => "NoEnt".into(),
+        9 => "Other(EBADF)".into(),
+        21 => "IsDir".into(),
+        22 => "Invalid".into(),
+        e => format!("Other(errno {e})"),
+    })
+}
+
 fn r<T>(x: std::io::Result<T>) -> Result<T, Res> {
     x.map_err(|e| Res::Err(errs(&e)))
 }
@@ -219,6 +255,15 @@ pub fn exec_impl(op: Op) -> Res {
                 let h = r(block(tfs::OpenOptions::new().write(true).open(FILES[f as usize])))?;
                 Res::Count(r(block(h.write_at(DATA[d as usize], o as u64)))?)
             }
+            Op::WriteAt(f, o, d, Front::Uring) => {
+                let h = r(sfs::OpenOptions::new().write(true).open(FILES[f as usize]))?;
+                let data = DATA[d as usize];
+                let n = uring_one(|fd| turmoil_io_uring::opcode::Write::new(fd, data.as_ptr(), data.len() as u32).offset(o as u64).build(), &h)?;
+                if n < 0 {
+                    return Err(uring_errno(n));
+                }
+                Res::Count(n as usize)
+            }
             Op::Append(f) => {
                 let mut h = r(sfs::OpenOptions::new().append(true).open(FILES[f as usize]))?;
                 Res::Count(r(h.write(b"q"))?)
@@ -239,6 +284,16 @@ pub fn exec_impl(op: Op) -> Res {
                 let mut buf = vec![0xEEu8; l as usize];
                 let n = r(block(h.read_at(&mut buf, o as u64)))?;
                 Res::Bytes(buf[..n].to_vec())
+            }
+            Op::ReadAt(f, o, l, Front::Uring) => {
+                let h = r(sfs::File::open(FILES[f as usize]))?;
+                let mut buf = vec![0xEEu8; l as usize];
+                let ptr = buf.as_mut_ptr();
+                let n = uring_one(|fd| turmoil_io_uring::opcode::Read::new(fd, ptr, l as u32).offset(o as u64).build(), &h)?;
+                if n < 0 {
+                    return Err(uring_errno(n));
+                }
+                Res::Bytes(buf[..n as usize].to_vec())
             }
             Op::Cursor(f) => {
                 let mut h = r(sfs::OpenOptions::new().read(true).write(true).create(true).open(FILES[f as usize]))?;
@@ -320,6 +375,14 @@ pub fn exec_impl(op: Op) -> Res {
             Op::SyncAll(f, Front::Tokio) => {
                 let h = r(block(tfs::OpenOptions::new().write(true).open(FILES[f as usize])))?;
                 r(block(h.sync_all()))?;
+                Res::Ok
+            }
+            Op::SyncAll(f, Front::Uring) => {
+                let h = r(sfs::OpenOptions::new().write(true).open(FILES[f as usize]))?;
+                let n = uring_one(|fd| turmoil_io_uring::opcode::Fsync::new(fd).build(), &h)?;
+                if n < 0 {
+                    return Err(uring_errno(n));
+                }
                 Res::Ok
             }
             Op::SyncData(f) => {
